@@ -223,6 +223,19 @@ func (r *sreader) next() (schange, string) {
 
 // runUpdates is the mode "updates" of a ccase.
 func (c ccase) runUpdates(g *mt.Gen, inst *instance, out *cout) {
+	// Pending: the first write is begun BEFORE the streams are opened and held between storing its value and
+	// publishing its change (yield points coll.update.beforeSend / value.set.beforeSend): both streams are
+	// seeded with what it stored and are then sent its change.  (A write that does not reach such a point —
+	// a Delete, a refused write — simply completes before the streams open.)
+	var pend *pgate
+	if c.Pending {
+		park := newParker("coll.update.beforeSend", "value.set.beforeSend")
+		defer park.close()
+		pend = park.start("pending write", func() error { inst.Write(g); return nil })
+		if pend.held {
+			out.Held = true
+		}
+	}
 	n := inst.Seeds()
 	// one stream's seed values after the other's, the second stream opened only then: a server may send its
 	// seeds while holding a lock of the model (wastepb does), two streams seeding at once would wait for
@@ -262,8 +275,11 @@ func (c ccase) runUpdates(g *mt.Gen, inst *instance, out *cout) {
 		return fmt.Sprintf("%s old:%v new:%v", a.Type, a.Old != nil, a.New != nil)
 	}
 	for i := 1; i <= c.Writes; i++ {
-		before := cloneAll(inst.Read(nil))
-		inst.Write(g)
+		if i == 1 && pend != nil {
+			pend.finish("pending write")
+		} else {
+			inst.Write(g)
+		}
 		marker := inst.Marker(i, g)
 		// the unmasked stream: the changes of the write (at most a few), then the marker's
 		var evs []schange
@@ -284,7 +300,6 @@ func (c ccase) runUpdates(g *mt.Gen, inst *instance, out *cout) {
 			}
 			evs = append(evs, e)
 		}
-		_ = before
 		all := append(evs, mark)
 		for j := 0; j < len(all); j++ {
 			got, msg := rm.next()
